@@ -110,8 +110,10 @@ def fin(w):
                 closed = p.__dict__.get("_closed_after") is not None or q.__dict__.get("_closed_after") is not None
                 if closed and not p.__dict__.get("_half") and (("lost",) not in p.log or ("lost",) not in q.log):
                     out.append(dict(oracle="close-once", sig="never-lost", msg="channel %r was closed but connectionLost did not reach both ends: %r / %r" % (name, p.log, q.log)))
-        for (k, arg, exc) in s.api_errors:
-            pass
+        for idx, r in enumerate(s.connect_results):
+            if r is not None and r != "ok":
+                out.append(dict(oracle="open-once", sig="connect-failed:%s" % r,
+                                msg="side %d: connect() #%d on a dilated, connected wormhole failed with %s (results %r)" % (s.i, idx, r, s.connect_results)))
     # write after close must have raised
     for s in w.sides:
         for t in s.threads:
@@ -159,6 +161,10 @@ _PREFIX = {}
 
 def mk(name, threads, expected=None, **kw):
     cfg = dict(BASE, threads=threads, monitors=[mon], final_monitors=[fin], post_init=wrap_ops)
+    if "lose" in kw:
+        cfg["lose"] = kw.pop("lose")
+        cfg["explored"] = tuple(cfg["explored"]) + ("lose",)
+        cfg["losable"] = lambda w, link: any(s.manager._connection is not None and s.manager._connection.transport.link is link for s in w.sides)
     if expected:
         cfg["expected_subprotocols"] = expected
     key = repr(sorted((expected or {}).items()))
@@ -189,6 +195,10 @@ def scenarios(tier):
     B = {0: [[("open", "p"), ("write", 0, b"x")], [("open", "p"), ("write", 1, b"y"), ("close", 1)], [("listen", "r")]],
          1: [[("listen", "p")], [("open", "r"), ("write", 0, b"z"), ("close", 0)]]}
     S.append(mk("two-opens-each-way-dev", B, dev_bound=3 if q else 4, max_depth=120))
+    # subchannels opened before and after a loss of the peer connection, on both sides: ids stay distinct across generations
+    R = {0: [[("open", "p"), ("write", 0, b"x")], [("open_later", "p"), ("write", 1, b"y")], [("listen", "r")]],
+         1: [[("listen", "p")], [("open", "r")], [("open_later", "r")]]}
+    S.append(mk("opens-across-reconnect-dev", R, lose=1, dev_bound=2 if q else 3, max_depth=160))
     for exp_name, exp in (("expected-p", {1: {"p"}}), ("expected-q", {1: {"q"}}), ("expected-empty", {1: set()})):
         C = {0: [[("open", "p"), ("write", 0, b"hello")], [("open", "zz")]],
              1: [[("listen", "p")]] if exp_name == "expected-p" else [[("listen", "q")]]}
@@ -210,6 +220,9 @@ def scenarios(tier):
 
 
 def shalf(w, s, op):
+    if op[0] == "open_later":
+        w._app(s, ("open", op[1]))
+        return True
     if op[0] == "shalf_close":
         s.accepted[op[1]].transport.loseWriteConnection()
         return True
@@ -217,6 +230,9 @@ def shalf(w, s, op):
 
 
 def guard(w, s, op):
+    if op[0] == "open_later":
+        # an open issued only once the (single) loss of the peer connection has happened and both sides are connected again
+        return w.lose_left == 0 and w.mstate(0) == "CONNECTED" and w.mstate(1) == "CONNECTED"
     if op[0] == "shalf_close":
         return len(s.accepted) > op[1] and s.accepted[op[1]].transport is not None
     return None
